@@ -12,7 +12,7 @@ import z3
 from typing import Dict, List, Optional
 
 from .source import SourceIndex, FuncInfo, ClassInfo, ModuleInfo
-from .values import (Unsupported, EnumVal, SEnum, SSet, GList, SStr, SObj, ExcVal, BuiltinExcClass,
+from .values import (Unsupported, EnumVal, SEnum, SSet, GList, SStr, SObj, ExcVal, BuiltinExcClass, XList,
                      BUILTIN_EXCEPTIONS, BoundMethod, BuiltinMethod, SuperProxy, Closure, NativeFn,
                      str_concat, str_len, str_eq, str_map_chars, str_count, nonneg, to_z3_string)
 
@@ -43,6 +43,29 @@ class _BadElem:
 
 
 BAD_ELEM = _BadElem()
+
+
+class ExternalModule:
+    """a standard-library module: its attributes resolve to external names (which need an assumed contract to be called)"""
+    def __init__(self, name, I):
+        self._name, self._I = name, I
+        self._pyvc_native = True
+
+    def __getattr__(self, attr):
+        if attr.startswith('_'):
+            raise AttributeError(attr)
+        if attr.isupper():
+            return ('extconst', f'{self._name}.{attr}')
+        return self._I.external(f'{self._name}.{attr}')
+
+
+class Opaque:
+    """a value the verifier does not look into (file objects, csv readers, lines of an unknown text); identity only"""
+    def __init__(self, tag, deps=()):
+        self.tag, self.deps = tag, tuple(deps)
+
+    def __repr__(self):
+        return f'<opaque {self.tag}>'
 
 
 class Infeasible(Exception):
@@ -339,11 +362,15 @@ class Interp:
                 r = self.call_function(m, [v], {})
                 return self.truth(r)
             return True
-        if isinstance(v, (EnumVal, SEnum, ClassInfo, FuncInfo, Closure, BoundMethod, NativeFn, ExcVal)):
+        if isinstance(v, (EnumVal, SEnum, ClassInfo, FuncInfo, Closure, BoundMethod, NativeFn, ExcVal, Opaque)):
             return True
         from .seq import SSeq
         if isinstance(v, SSeq):
             return self.pipes.observable(v, 'ne')
+        if isinstance(v, XList):
+            if v.items:
+                return True
+            return self.pipes.observable(v.base, 'ne') if v.base is not None else False
         if getattr(v, '_pyvc_native', False):
             return True
         raise Unsupported(f'truthiness of {type(v).__name__}')
@@ -403,6 +430,12 @@ class Interp:
     def external(self, qual: str):
         if qual in self.natives:
             return self.natives[qual]
+        if self.registry is not None:
+            ci = self.registry.for_call(qual)
+            if ci is not None:
+                return NativeFn(lambda *a, **k: self.registry.apply_external(self, ci, a, k), qual)
+        if qual in ('csv', 'os', 'io'):
+            return ExternalModule(qual, self)
         short = qual.rsplit('.', 1)[-1]
         if qual in ('copy.deepcopy', 'copy.copy'):
             return NativeFn(lambda a: self.builtin_copy(a, deep=qual.endswith('deepcopy')), qual)
@@ -596,6 +629,12 @@ class Interp:
         if isinstance(it, SStr) and not it.is_concrete():
             return self.for_over_runs(st, it, env)
         from .seq import SSeq
+        if isinstance(it, XList):
+            if it.base is not None:
+                if st.orelse:
+                    raise Unsupported('for/else over a symbolic list')
+                self.loops.for_over_seq(self, st, it.base, env)
+            it = list(it.items)
         if isinstance(it, SSeq):
             return self.loops.for_over_seq(self, st, it, env)
         items = self.iterate(it)
@@ -714,6 +753,8 @@ class Interp:
             fresh = obj.fresh
         elif isinstance(obj, (list, dict, set)):
             fresh = id(obj) not in self.prestate_ids
+        elif isinstance(obj, XList):
+            fresh = not obj.prestate
         elif getattr(obj, 'prestate', False):
             fresh = False
         self.writes.append((self.cur_line, self.cur_func, what, fresh, obj))
@@ -728,8 +769,10 @@ class Interp:
             obj.fields[attr] = v
             return
         if isinstance(obj, ClassInfo):
-            self.writes.append((self.cur_line, self.cur_func, f'class attribute {obj.name}.{attr}', False, obj))
-            raise Unsupported('write to a class attribute')
+            # class attributes are global state (e.g. the Node.NextID counter): a write is a frame event on the class
+            self.writes.append((self.cur_line, self.cur_func, f'.{attr}', False, obj))
+            self.const_cache[f'{obj.qualname}.{attr}'] = v
+            return
         if getattr(obj, '_pyvc_native', False):
             setattr(obj, attr, v)
             return
@@ -1044,7 +1087,9 @@ class Interp:
     def identical(self, a, b):
         if a is None or b is None:
             return a is b
-        if isinstance(a, (SObj, list, dict, set, EnumVal, ClassInfo)) and isinstance(b, (SObj, list, dict, set, EnumVal, ClassInfo)):
+        if isinstance(a, SObj) and isinstance(b, SObj):
+            return getattr(a, 'orig', a) is getattr(b, 'orig', b)
+        if isinstance(a, (SObj, list, dict, set, EnumVal, ClassInfo, XList)) and isinstance(b, (SObj, list, dict, set, EnumVal, ClassInfo, XList)):
             return a is b
         if isinstance(a, SEnum) or isinstance(b, SEnum):
             return self.equals(a, b)
@@ -1110,6 +1155,8 @@ class Interp:
         if isinstance(b, SObj):
             return self.equals(b, a)
         from .seq import SSeq
+        if isinstance(a, XList) or isinstance(b, XList):
+            return self.loops.xlist_equals(self, a, b)
         if isinstance(a, SSeq) or isinstance(b, SSeq):
             return self.loops.seq_equals(self, a, b)
         if type(a) is not type(b) and not is_sym(a) and not is_sym(b):
@@ -1191,6 +1238,11 @@ class Interp:
                 return acc
             return simp(z3.Contains(to_z3_string(container), to_z3_string(x)))
         from .seq import SSeq
+        if isinstance(container, XList):
+            acc = self.loops.seq_contains(self, container.base, x) if container.base is not None else False
+            for y in container.items:
+                acc = _or(acc, self.equals(x, y))
+            return acc
         if isinstance(container, SSeq):
             return self.loops.seq_contains(self, container, x)
         raise Unsupported(f'membership in {type(container).__name__}')
@@ -1288,7 +1340,7 @@ class Interp:
             if obj[1] == 'set' and attr == 'union':
                 return NativeFn(lambda *sets: self.set_union_many(sets), 'set.union')
         from .seq import SSeq
-        if isinstance(obj, SSeq):
+        if isinstance(obj, (SSeq, XList)):
             return BuiltinMethod(obj, attr)
         if obj is None:
             self.raise_py('AttributeError')
@@ -1341,6 +1393,12 @@ class Interp:
         if isinstance(obj, SStr) and obj.only_runs():
             return self.loops.rl_slice(self, obj, lo, hi)
         from .seq import SSeq
+        if isinstance(obj, XList):
+            if lo is None and isinstance(hi, int) and hi < 0 and len(obj.items) >= -hi:
+                return XList(obj.base, obj.items[:hi], False)
+            if lo is None and hi is None:
+                return XList(obj.base, obj.items, False)
+            raise Unsupported('slice of a symbolic list')
         if isinstance(obj, SSeq):
             return self.loops.seq_slice(self, obj, lo, hi)
         raise Unsupported('symbolic slice')
@@ -1384,6 +1442,8 @@ class Interp:
                 return self.str_last(obj)
             raise Unsupported('index into symbolic string')
         from .seq import SSeq
+        if isinstance(obj, XList):
+            return self.loops.xlist_index(self, obj, key)
         if isinstance(obj, SSeq):
             return self.loops.seq_index(self, obj, key)
         if isinstance(obj, ClassInfo) and obj.is_enum and isinstance(key, str):
@@ -1591,6 +1651,8 @@ class Interp:
             c = it.concrete()
             if c is not None:
                 return list(c)
+        if isinstance(it, XList) and it.base is None:
+            return list(it.items)
         raise Unsupported(f'iteration over {type(it).__name__}')
 
     def ex_Lambda(self, node, env):
